@@ -90,12 +90,6 @@ theorem lookup_addFile_ne (r : Root) (n m : Name) (f : Nat) (h : m ≠ n) :
 
 /-! ### the invariant -/
 
-/-- The thread counts as a user of the invoker (between `begin` and `release`). -/
-def DPC.user : DPC → Bool
-  | .idle => false
-  | .releasing _ _ => false
-  | _ => true
-
 structure DInv (s : State) : Prop where
   keysNodup : (keys s.root).Nodup
   ownsIn : ∀ t n, (s.pc t).owns n → hasName s.root n = true
